@@ -177,12 +177,12 @@ func checkC15(r *Run) int {
 			f := c15File(v.item, v.intra, v.msg)
 			f.Pkg, f.Name = "perm", "perm.proto"
 			if v.split {
-				sc := space.Split(&space.Case{Label: "x", File: f, Cfg: space.BaseConfig("Perm", "Twin", "TWin"), Tags: map[string]string{}})
+				sc := space.Split(&space.Case{Label: "x", File: f, Cfg: space.BaseConfig("Perm", "Twin", "TWin", "Leaf"), Tags: map[string]string{}})
 				if sc != nil {
 					f = sc.File
 				}
 			}
-			cfg := space.BaseConfig("Perm", "Twin", "TWin")
+			cfg := space.BaseConfig("Perm", "Twin", "TWin", "Leaf")
 			cfg.Sort = srt
 			cfg.Exclude = []string{"Perm.Hidden"}
 			// options addressed by full path below the two roots' equally named fields
